@@ -67,7 +67,8 @@ Qed.
 Lemma unrel_from_not_self (ss : list filt) S : pw_unrel ceqb (map fid ss) -> In S ss -> unrel_from ceqb S (not_self S ss).
 Proof.
   intros Hpw HS u Hu. unfold not_self in Hu. apply filter_In in Hu. destruct Hu as [Hu Hne]. apply negb_true_iff in Hne.
-  apply (pw_unrel_filt ceqb ss); auto. intros ->. destruct (filt_eqb_spec ceqb ceqb_spec u u); congruence.
+  assert (Hsu : S <> u) by (intros ->; destruct (filt_eqb_spec ceqb ceqb_spec u u); congruence).
+  exact (pw_unrel_filt ceqb ss S u Hpw HS Hu Hsu).
 Qed.
 
 (* the subject among the objects adds nothing to "something else": its own modules are inside anyway *)
@@ -79,14 +80,8 @@ Proof.
   assert (HnS : inD S (snd xy) = false).
   { destruct (inD S (snd xy)) eqn:E; [|reflexivity]. unfold inside in Ein. destruct imp; [|congruence].
     rewrite (inD_prefix ceqb ceqb_spec _ _ E) in Ein. discriminate. }
-  unfold not_self. induction ss as [|o ss IH]; [reflexivity|]. cbn [filter forallb].
-  destruct (filt_eqb_spec ceqb ceqb_spec o S) as [->|Hne]; cbn [negb].
-  - rewrite HnS. cbn [negb andb]. destruct (in_dec (fun a b => match filt_eqb_spec ceqb ceqb_spec a b with ReflectT _ e => left e | ReflectF _ n => right n end) S ss) as [Hin|Hnin].
-    + apply IH. exact Hin.
-    + clear IH. induction ss as [|o' ss' IH']; [reflexivity|]. cbn [filter forallb].
-      destruct (filt_eqb_spec ceqb ceqb_spec o' S) as [->|Hne']; [exfalso; apply Hnin; left; reflexivity|].
-      cbn [negb forallb]. rewrite IH'; [reflexivity|intros H; apply Hnin; right; exact H].
-  - cbn [forallb]. destruct HS as [->|HS]; [congruence|]. rewrite (IH HS). reflexivity.
+  unfold not_self. symmetry. apply forallb_filter_skip. intros o Ho. apply negb_false_iff in Ho.
+  destruct (filt_eqb_spec ceqb ceqb_spec o S) as [E|]; [|discriminate]. rewrite E, HnS. reflexivity.
 Qed.
 
 Lemma other_out_alias g (ss : list filt) :
@@ -144,6 +139,12 @@ Proof.
 Qed.
 
 (* ---- drop_children is the identity on pairwise unrelated subjects ---- *)
+Lemma filter_all_true {X} (p : X -> bool) l : (forall x, In x l -> p x = true) -> filter p l = l.
+Proof.
+  induction l as [|x l IH]; intros H; [reflexivity|]. cbn [filter]. rewrite (H x (or_introl eq_refl)).
+  f_equal. apply IH. intros y Hy. apply H. right. exact Hy.
+Qed.
+
 Lemma drop_children_unrelated (ss : list filt) :
   pw_unrel ceqb (map fid ss) -> drop_children ceqb (map (@to_u comp) ss) = map (@to_u comp) ss.
 Proof.
@@ -157,13 +158,7 @@ Proof.
     assert (R : related (fid s') (fid s) = false).
     { apply (pw_unrel_in ceqb (map fid ss)); auto; apply in_map; assumption. }
     unfold Names.related in R. rewrite Hp in R. discriminate. }
-  induction (map (@to_u comp) ss) as [|f l IH] in H |- *; [reflexivity|].
-  clear IH. revert H. generalize (f :: l) at 1 3 as all. intros all H.
-  assert (G : forall l0, (forall x, In x l0 -> negb (has_listed_ancestor ceqb all x) = true) ->
-                         filter (fun x => negb (has_listed_ancestor ceqb all x)) l0 = l0).
-  { induction l0 as [|x l0 IH0]; intros Hl; [reflexivity|]. cbn [filter]. rewrite (Hl x (or_introl eq_refl)).
-    f_equal. apply IH0. intros y Hy. apply Hl. right. exact Hy. }
-  apply G. exact H.
+  apply filter_all_true. exact H.
 Qed.
 
 (* ---- the alias verdict ---- *)
@@ -181,16 +176,18 @@ Proof.
     rewrite verdict_unfold by (destruct ss; simpl; congruence).
     rewrite !(convert_plain rmatch g). rewrite viol_should_not_exc. unfold other_query, importers_of, importees_of.
     destruct imp; [rewrite (other_out_alias g ss Hwf Hex Hpw)|rewrite (other_in_alias g ss Hwf Hex Hpw)]; reflexivity. }
-  rewrite HV. split.
-  - rewrite (passes_of_viol (Ok _)). unfold spec_holds.
-    split.
-    + intros E. injection E as E. apply realised_nil in E. unfold none_realised in E. rewrite forallb_forall in E.
+  rewrite HV.
+  assert (Hiff : realised imp (map (fun S => (S, others_of ceqb g imp S ss)) ss) = [] <-> spec_holds ceqb g ShouldNot imp true ss ss = true).
+  { unfold spec_holds. split.
+    - intros E. apply realised_nil in E. unfold none_realised in E. rewrite forallb_forall in E.
       apply forallb_forall. intros S HS. apply negb_true_iff. apply (others_of_nil ceqb).
       specialize (E (S, others_of ceqb g imp S ss)). cbn [snd] in E. apply is_nil_true. apply E. apply in_map_iff. exists S. auto.
-    + intros H. rewrite forallb_forall in H. f_equal. apply realised_nil. unfold none_realised. apply forallb_forall.
+    - intros H. rewrite forallb_forall in H. apply realised_nil. unfold none_realised. apply forallb_forall.
       intros kv Hkv. apply in_map_iff in Hkv. destruct Hkv as [S [<- HS]]. cbn [snd]. apply is_nil_true. apply (others_of_nil ceqb).
-      apply negb_true_iff. apply H. exact HS.
-  - destruct (realised imp _); reflexivity.
+      apply negb_true_iff. apply H. exact HS. }
+  destruct (realised imp (map (fun S => (S, others_of ceqb g imp S ss)) ss)) as [|l ls] eqn:ER; cbn [of_viol is_err].
+  - split; [|reflexivity]. split; [intros _; apply Hiff; reflexivity|reflexivity].
+  - split; [|reflexivity]. split; [discriminate|]. intros H. apply Hiff in H. discriminate.
 Qed.
 
 End AliasProofs.
